@@ -26,11 +26,14 @@ else:
     yield chrom_lo + chrom_lo.dtype.type(np.searchsorted(chrom_bins, start, "right") - 1)
     yield chrom_lo + chrom_lo.dtype.type(np.searchsorted(chrom_bins, end, "left"))
 ```
-dtypes: `chrom_offset` is stored as int64 (`CHROMOFFSET_DTYPE`), `searchsorted` returns `intp`
-(int64): the `- 1` is computed on SIGNED 64-bit integers, so a result of `searchsorted = 0` would
-give `-1` (no wrap-around), hence the `Int` first component.  Theorem `C04.one_le_ssRight` shows
-it cannot happen on a valid table (`starts[0] = 0 ≤ start`).  `start / binsize` is a float64
-division (idealised as `Nat` division, exact below 2^52; sampled by the correspondence). -/
+dtypes: `chrom_offset` is stored as int64 (`CHROMOFFSET_DTYPE`), `bins/start` as int32,
+`searchsorted` returns `intp` (int64): the `- 1` is computed on SIGNED 64-bit integers, so
+`searchsorted = 0` would give `-1` (no wrap-around), which `chrom_lo.dtype.type(...)` = `np.int64`
+keeps; hence the `Int` first component.  (In a foreign file with an unsigned `chrom_offset` dtype
+the cast would wrap to 2^64-1 and the addition would wrap back: same value modulo 2^64.)  Theorem
+`C04.one_le_ssRight` shows the case cannot arise on a valid table: `starts[0] = 0 ≤ start`, so the
+subtraction never goes below 0.  `start / binsize` is a float64 division (idealised as `Nat`
+division, exact below 2^52; sampled by the correspondence up to 2^40). -/
 def regionToExtentIdx (chromOffset starts : List Nat) (binsize : Option Nat) (cid s e : Nat) :
     Int × Nat :=
   let lo := chromOffset.getD cid 0
